@@ -165,7 +165,7 @@ def toSigTx (t : Schema.Tx) (xs : Bool) (txidOk : Bool) : SigLogic.Tx :=
     authRequire := t.core.authRequire.map authReqOf, authRequireSigns := t.signs.authRequireSigns.map sg,
     xuper := if xs then some ⟨ks, ks.all (·.isSome) &&
       t.signs.xuperSignature == [0x58] ++ (ks.filterMap id).map UInt8.ofNat ++ [0x2e] ++ dig⟩ else none,
-    inputs := t.core.inputs.map fun i => ⟨nameOf i.fromAddr, false⟩ }
+    inputs := t.core.inputs.map fun i => { owner := nameOf i.fromAddr } }
 
 /-- value of `k=` in a token list, split at the first '=' only (transaction specs contain '=') -/
 def kv1 (ws : List String) (k : String) : Option String :=
@@ -183,6 +183,65 @@ def vt (ws : List String) : String :=
     if pm.version < 1 || pm.version > 3 || pm.autogen then "reject"
     else if SigLogic.verifyTx env (toSigTx mu pm.xs txidOk) then "accept" else "reject"
   | _, _, _ => "bad-op"
+
+/-! ### vc: outputs spent by the carried contract code (`$xvvault.withdraw`) -/
+
+/-- owner / recipient token: `V` the vault contract, `A<i>` address i, `C<n>` account n -/
+def vcName (tok : String) : Option SigLogic.Name :=
+  match tok.toList with
+  | ['V'] => some (.ak 999)
+  | 'A' :: r => (String.ofList r).toNat?.map SigLogic.Name.ak
+  | 'C' :: r => (String.ofList r).toNat?.map SigLogic.Name.account
+  | _ => none
+
+def vcInput (e : String) : Option SigLogic.Input :=
+  match e.splitOn "/" with
+  | [ref, o, a] =>
+    match ref.splitOn "." with
+    | [t, off] => do pure ⟨← vcName o, ← t.toNat?, ← off.toInt?, ← a.toNat?⟩
+    | _ => none
+  | _ => none
+
+def vcOutput (e : String) : Option SigLogic.Output :=
+  match e.splitOn "/" with
+  | [a, to] => do pure ⟨← a.toNat?, ← vcName to⟩
+  | _ => none
+
+/-- a listed signer `A<i>` or `C<n>|A<i>`; it signs validly with key i -/
+def vcSigner (tok : String) : Option (SigLogic.AuthReq × SigLogic.Sig) :=
+  match tok.splitOn "|" with
+  | [a] => match vcName a with
+    | some (.ak i) => some (⟨none, i⟩, ⟨some i, true⟩)
+    | _ => none
+  | [c, a] => match vcName c, vcName a with
+    | some (.account n), some (.ak i) => some (⟨some n, i⟩, ⟨some i, true⟩)
+    | _, _ => none
+  | _ => none
+
+def vc (ws : List String) : String :=
+  let r : Option String := do
+    let sg ← listOf (← kv1 ws "sg") "," some
+    let ini ← match sg.head? with
+      | some a => match vcName a with
+        | some (.ak i) => some i
+        | _ => none
+      | none => none
+    let signers ← (sg.drop 1).mapM vcSigner
+    let amts ← listOf (← kv1 ws "amts") "," String.toInt?
+    let payer : SigLogic.Name ← match (← kv1 ws "from") with
+      | "V" => some (.ak 999)
+      | "I" => some (.ak ini)
+      | _ => none
+    let t : SigLogic.Tx := {
+      txidOk := true, initiator := .ak ini, initiatorSigns := [⟨some ini, true⟩],
+      authRequire := signers.map (·.1), authRequireSigns := signers.map (·.2), xuper := none,
+      inputs := ← listOf (← kv1 ws "in") "," vcInput, outputs := ← listOf (← kv1 ws "out") "," vcOutput,
+      contractInputs := ← listOf (← kv1 ws "cin") "," vcInput, contractOutputs := ← listOf (← kv1 ws "cout") "," vcOutput }
+    let code : List SigLogic.Transfer := amts.map fun a => ⟨payer, .ak ini, a⟩
+    let ok := if kv1 ws "req" == some "0" then SigLogic.verifyTxNoCode (fun t => SigLogic.byContract t.contractInputs) env t
+      else SigLogic.verifyTxC (fun t => SigLogic.byContract t.contractInputs) env code t
+    pure (if ok then "accept" else "reject")
+  r.getD "bad-op"
 
 def stepC07 (line : String) : Option String :=
   match words line with
@@ -202,6 +261,7 @@ def stepC07 (line : String) : Option String :=
       some (if lenBytes.enc [] ++ (counted cInput).enc [i [7] []] == lenBytes.enc [] ++ (counted cInput).enc [i [] [7]] then "collide" else "distinct")
     else some (if v1Stream [a] [] == v1Stream [b] [] then "collide" else "distinct")
   | "vt" :: ws => some (vt ws)
+  | "vc" :: ws => some (vc ws)
   | _ => none
 
 end XV.Drv.EncTx
